@@ -200,7 +200,10 @@ class M(Model):
         num_cols per cleared row, each step pays REWARDS[rows cleared]."""
         states = [ep.s0] + list(ep.states)
         total = 0.0
-        for p, n in zip(states[:-1], states[1:]):
+        for k, (p, n) in enumerate(zip(states[:-1], states[1:])):
+            r, x = self._act(ep.actions[k])
+            if not (0 <= r < 4 and 0 <= x < self.C and bool(self.legal(p)[r, x])):
+                break  # illegal action: pays 0 and ends the episode
             diff = int(self._occ(p).sum()) + 4 - int(self._occ(n).sum())
             if diff < 0 or diff % self.C or diff // self.C > 4:
                 return None  # not a legal transition (C07/C09 report it)
@@ -298,7 +301,7 @@ class M(Model):
 # ============================================================================ synthetic C09 tables
 SYNTHETIC_SHARDS = {"quick": 2, "thorough": 8}
 _SIZES = [(4, 4), (6, 5), (5, 12), (10, 10), (7, 4), (4, 9)]
-_EP_ENTRIES = ["r6c5t400", "r4c4t3", "r5c12t2", "r10c10t400", "r6c5t7"]
+_EP_ENTRIES = ["r6c5t400", "r10c10t400", "r4c4t3", "r6c5t7", "r5c12t2"]
 _FN = {}
 
 
@@ -428,39 +431,71 @@ def _check_clear(R, C, boards, colours):
     return out
 
 
-def _episode_termination(b, key, picks, T):
-    """Play one episode on the real env; LAST must hold exactly when the action was illegal, the next
-    piece has no legal placement, or the time limit is reached (the part of the transition rule that
-    `predict` cannot decide because it depends on the drawn piece)."""
+def _greedy_score(occ, piece, x):
+    """Heuristic value of a legal placement (plan bias only, never an oracle): few holes, low and flat
+    stack, keep the last column free as a well so that several rows get cleared at once."""
+    g, n, _ = place_and_clear(occ, piece, x)
+    R, C = g.shape
+    heights = np.where(g.any(axis=0), R - np.argmax(g, axis=0), 0)
+    holes = int(sum((~g[R - heights[c]:, c]).sum() for c in range(C)))
+    bump = int(np.abs(np.diff(heights[:-1])).sum()) if C > 2 else 0
+    well = int(g[:, C - 1].sum()) if n == 0 else 0
+    return 10 * n * n - 5 * holes - int(heights.sum()) - bump - 4 * well
+
+
+def _step_problems(m, hs, a, hs2, hts2):
+    """Full comparison of one env transition with the rule model, including the part of the termination
+    rule that `predict` cannot decide because it depends on the randomly drawn next piece."""
+    out = []
+    legal = bool(m.legal(hs)[tuple(int(v) for v in a)])
+    want = (not legal) or int(hs.step_count) + 1 >= m.T or not m.legal(hs2).any()
+    got = int(hts2.step_type) == LAST
+    if want != got:
+        why = "illegal action" if not legal else ("time limit" if int(hs.step_count) + 1 >= m.T else "next piece blocked" if want else "none")
+        out.append(("synthetic.termination", "termination flag differs from the documented end conditions",
+                    f"env LAST={got}, rules say {want} ({why})"))
+    pred = m.predict(hs, a)
+    if pred is not None and float(hts2.reward) != float(pred["reward"]):
+        out.append(("synthetic.reward", "reward differs from the rule model",
+                    f"env {float(hts2.reward)} model {float(pred['reward'])}"))
+    for sig, msg in m.stochastic_ok(hs, a, hs2):
+        out.append(("synthetic.board", sig, msg))
+    return out
+
+
+def _episode_check(b, key, picks):
+    """Play one episode on the real env with a line-clearing bias (mode 2 = greedy by the rule model,
+    1 = r-th legal action, 0 = r-th illegal action) and compare every transition."""
     from vf import envs, episodes
 
     m = M(b)
     st_, ts = b.reset(envs.make_key(key))
-    hs, hts = episodes.host((st_, ts))
-    actions, probs, clears = [], [], 0
+    hs = episodes.host(st_)
+    actions, probs, clears, multi = [], [], 0, 0
     for mode, r in picks:
         L = m.legal(hs)
         pool = np.argwhere(L if mode else ~L)
         if pool.size == 0:
             pool = np.argwhere(L | ~L)
-        a = np.asarray(pool[r % len(pool)], b.act_dtype)
-        legal = bool(L[tuple(a)])
+        if mode == 2 and L.any():
+            occ, rots = m._occ(hs), m.P[m._idx(hs)]
+            scores = [_greedy_score(occ, rots[rr], xx) for rr, xx in pool]
+            best = [k for k, sc in enumerate(scores) if sc == max(scores)]
+            a = np.asarray(pool[best[r % len(best)]], b.act_dtype)
+        else:
+            a = np.asarray(pool[r % len(pool)], b.act_dtype)
         st2, ts2 = b.step(st_, a)
         hs2, hts2 = episodes.host((st2, ts2))
         actions.append(a.tolist())
-        want = (not legal) or int(hs.step_count) + 1 >= T or not m.legal(hs2).any()
-        got = int(hts2.step_type) == LAST
-        if legal and float(hts2.reward) > 0:
+        if float(hts2.reward) > 0:
             clears += 1
-        if want != got:
-            why = "illegal action" if not legal else ("time limit" if int(hs.step_count) + 1 >= T else "next piece blocked" if want else "none")
-            probs.append(("synthetic.termination", "termination flag differs from the documented end conditions",
-                          f"env LAST={got}, rules say {want} ({why}) at step {len(actions)}"))
-            break
-        if got:
+            multi += float(hts2.reward) > REWARDS[1]
+        for o, sig, msg in _step_problems(m, hs, a, hs2, hts2):
+            probs.append((o, sig, f"{msg} at step {len(actions)}"))
+        if probs or int(hts2.step_type) == LAST:
             break
         st_, hs = st2, hs2
-    return probs, actions, clears
+    return probs, actions, clears, int(multi)
 
 
 def synthetic_c09(ctx, item, seed, tier):
@@ -503,44 +538,40 @@ def synthetic_c09(ctx, item, seed, tier):
 
     def episode(entry, key, picks):
         b = envs.bundle("Tetris", entry)
-        T = int(b.env.time_limit)
-        probs, actions, clears = _episode_termination(b, key, picks, T)
+        probs, actions, clears, multi = _episode_check(b, key, picks)
         ctx.evals(len(actions))
-        ctx.count("termination_episodes")
-        ctx.count("termination_steps", len(actions))
-        ctx.count("termination_line_clears", clears)
-        ctx.nontrivial("tetris-term", entry, list(key), actions)
+        ctx.count("greedy_episodes")
+        ctx.count("greedy_steps", len(actions))
+        ctx.count("greedy_line_clears", clears)
+        ctx.count("greedy_multi_line_clears", multi)
+        ctx.nontrivial("tetris-ep", entry, list(key), actions)
         for oracle, sig, msg in probs:
             ctx.fail(oracle, "Tetris", sig, f"{msg} [entry={entry} key={list(key)}]",
-                     {"env": "Tetris", "synthetic": True, "kind": "termination", "entry": entry, "key": list(key),
+                     {"env": "Tetris", "synthetic": True, "kind": "episode", "entry": entry, "key": list(key),
                       "actions": actions}, size=len(actions))
 
-    picks = st.lists(st.tuples(st.sampled_from([1] * 15 + [0]), st.integers(0, 2**16)), min_size=1, max_size=60)
+    picks = st.lists(st.tuples(st.sampled_from([2] * 12 + [1] * 7 + [0]), st.integers(0, 2**16)), min_size=40, max_size=120)
     hyp.drive({"entry": st.sampled_from(entries), "key": episodes.keys(), "picks": picks}, episode, seed,
               (20 if tier == "quick" else 150) * len(entries))
 
 
 def synthetic_replay(case):
     kind = case.get("kind")
-    if kind == "termination":
+    if kind == "episode":
         from vf import envs, episodes
 
         b = envs.bundle("Tetris", case["entry"])
         m = M(b)
-        T = int(b.env.time_limit)
-        st_, ts = b.reset(envs.make_key(case["key"]))
+        st_, _ = b.reset(envs.make_key(case["key"]))
         hs = episodes.host(st_)
         for t, a in enumerate(case["actions"]):
             a = np.asarray(a, b.act_dtype)
-            legal = bool(m.legal(hs)[tuple(a)])
             st_, ts = b.step(st_, a)
             hs2, hts2 = episodes.host((st_, ts))
-            want = (not legal) or int(hs.step_count) + 1 >= T or not m.legal(hs2).any()
-            got = int(hts2.step_type) == LAST
-            if want != got:
-                return [("synthetic.termination", "termination flag differs from the documented end conditions",
-                         f"env LAST={got}, rules say {want} at step {t + 1}")]
-            if got:
+            probs = _step_problems(m, hs, a, hs2, hts2)
+            if probs:
+                return [(o, sig, f"{msg} at step {t + 1}") for o, sig, msg in probs]
+            if int(hts2.step_type) == LAST:
                 break
             hs = hs2
         return []
